@@ -903,4 +903,94 @@ func (t T$u) m()    { rt.Enter($e0) }
 func mk$u() I$u { rt.Enter($e1); return T$u{} }
 @body
 mk$u().m()
+
+### phicall basic
+@decls
+func ta$u() int { rt.Enter($e0); return 1 }
+func tb$u() int { rt.Enter($e1); return 2 }
+func use$u(x int) { rt.Enter($e2) }
+@body
+var r$u int
+for i$u := 0; i$u < 2; i$u++ {
+	if i$u == 0 {
+		r$u = ta$u()
+	} else {
+		r$u = tb$u()
+	}
+	use$u(r$u)
+}
+
+### loopcarried basic
+@decls
+func step$u(x int) int { rt.Enter($e0); return x + 1 }
+func fin$u(x int)      { rt.Enter($e1) }
+@body
+acc$u := 0
+for i$u := 0; i$u < 2; i$u++ {
+	acc$u = step$u(acc$u)
+}
+fin$u(acc$u)
+
+### rangecarried basic
+@decls
+func mk$u(x int) []int { rt.Enter($e0); return []int{x} }
+func fin$u(x []int)    { rt.Enter($e1) }
+@body
+var cur$u []int
+for _, v$u := range []int{1, 2} {
+	cur$u = mk$u(v$u + len(cur$u))
+}
+fin$u(cur$u)
+
+### phifuncval funcval
+@decls
+func ta$u() { rt.Enter($e0) }
+func tb$u() { rt.Enter($e1) }
+@body
+for i$u := 0; i$u < 2; i$u++ {
+	f$u := ta$u
+	if i$u == 1 {
+		f$u = tb$u
+	}
+	f$u()
+}
+
+### ifaceTwoConversions iface
+@decls
+type R$u interface{ read() }
+type RC$u interface {
+	read()
+	closeIt()
+}
+type T$u struct{ n int }
+
+func (t *T$u) read()    { rt.Enter($e0) }
+func (t *T$u) closeIt() { rt.Enter($e1) }
+func useR$u(r R$u)     { rt.Enter($e2); r.read() }
+func useRC$u(r RC$u)   { rt.Enter($e3); r.read(); r.closeIt() }
+@body
+t$u := &T$u{}
+useR$u(t$u)
+useRC$u(t$u)
+
+### switchcall basic
+@decls
+func ta$u() int { rt.Enter($e0); return 1 }
+func tb$u() int { rt.Enter($e1); return 2 }
+func tc$u() int { rt.Enter($e2); return 3 }
+@body
+tot$u := 0
+for i$u := 0; i$u < 3; i$u++ {
+	var v$u int
+	switch i$u {
+	case 0:
+		v$u = ta$u()
+	case 1:
+		v$u = tb$u()
+	default:
+		v$u = tc$u()
+	}
+	tot$u += v$u
+}
+_ = tot$u
 `
